@@ -50,6 +50,10 @@ func (z *Zip) M__iter__() (Object, error) {
 }
 
 func (z *Zip) M__next__() (Object, error) {
+	if z.size == 0 {
+		// zip() without arguments is an empty iterator
+		return nil, StopIteration
+	}
 	result := make(Tuple, z.size)
 	for i := 0; i < z.size; i++ {
 		value, err := Next(z.itTuple[i])
